@@ -90,7 +90,7 @@ def emit_module(inst):
 
 
 def cfg_emit(inst, extra_ops=()):
-    nxt = ("NextR2" if "slice" in extra_ops else "NextR3" if "inspect" in extra_ops else "NextR") if emit_module(inst) == "SodgR" else "NextX"
+    nxt = ("NextR2" if "slice" in extra_ops else "NextR3" if "inspect" in extra_ops else "NextR4" if "deploy" in extra_ops else "NextR") if emit_module(inst) == "SodgR" else "NextX"
     return (f"INIT Init\nNEXT {nxt}\nVIEW view\nACTION_CONSTRAINT Emit\n"
             + consts(inst, "Extra = " + tla_set(extra_ops) + r_consts(inst)) + "CHECK_DEADLOCK FALSE\n")
 
@@ -455,6 +455,9 @@ def plan_c05(run, prop, tier):
     e1_world(run, acc, tier)
     # clones in the product: the allocator position and the issued ids must survive clone()
     e2_product(run, acc, "A3", [(2, 4, 0), (1, 3, 1)], extra_ops=("clone",))
+    # scripts in the product: every program of the named family (SodgCore!ScriptFamily: variables, literals, every command
+    # kind) deployed at EVERY product state - variables take their ids from an allocator in every position
+    e2_product(run, acc, "A3", [(2, 3, 0)], extra_ops=("deploy",))
     e3_drive(run, acc, twin_plan(tier, vlib.seed()), label="E3 twins")
     e3_drive(run, acc, [dict(profile="script", n=2, cap=64, steps=2500, seed=vlib.seed() * 100 + 71, window=12),
                         dict(profile="merge", n=2, cap=32, steps=1200, seed=vlib.seed() * 100 + 31, window=12),
@@ -754,6 +757,12 @@ def plan_script(run, prop, tier):
         sp += [dict(profile="script", n=n, cap=cap, steps=6000, seed=s_ * 1000 + 700 + i, window=w) for i, (n, cap, w) in enumerate([(1, 64, 8), (3, 128, 16), (4, 256, 24), (8, 200, 40)])]
         sp += [dict(profile="cyclescript", n=n, cap=cap, steps=1200, seed=s_ * 1000 + 720 + i, window=10) for i, (n, cap) in enumerate([(1, 64), (3, 100), (4, 256), (8, 74), (16, 64)])]
     e3_drive(run, acc, sp, label="E3 scripts on graphs with history")
+    # scripts as transitions of the product: the named family (variables, literals, every command kind) at EVERY product state
+    # of the bounded instances, judged like any other call (the same API calls on a copy, the exact model)
+    e2_product(run, acc, "A3", [(2, 3, 0), (16, 64, 0)], extra_ops=("deploy",))
+    e2_product(run, acc, "F4a", [(1, 4, 0)], extra_ops=("deploy",))
+    if not any(r.get("ops", {}).get("deploy", 0) > 0 for r in acc.e2):
+        acc.vacuity.append("no deploy transition executed in the product")
     for name, cfg, runs, stride in jobs:
         path, cached = vlib.emit_ts(run, "ScriptGen", cfg, workers=8, timeout=3000)
         for k, (n, cap) in enumerate(runs):
